@@ -16,13 +16,14 @@ type closeCase struct {
 	Times     int           // sequential calls per closer goroutine
 	Callers   int           // goroutines calling Close concurrently per closing side
 	Transport string        // working | silent | blocking
-	Load      string        // idle | burst | full-window | lossy
+	Load      string        // idle | burst | full-window | lossy | recv-backlog
 	N         uint8
 	Keepalive bool
 }
 
 type closeResult struct {
 	MaxCloseTook time.Duration
+	CloseHung    string
 	BlockedSend  string // result of the Send that was blocked / in flight when Close ran
 	BlockedRecv  string
 	LaterSend    bool // Send after Close fails
@@ -37,7 +38,10 @@ func closeScenario(t *testing.T, c closeCase) closeResult {
 	// A hung transport makes Close wait for the FIN context's timeout while other
 	// callers queue up on sync.Once's mutex; a mutex wait is not "durably blocked"
 	// for synctest, so virtual time could not advance: those cases use the wall clock.
-	real := c.Transport == "blocking"
+	// wall clock: a hung transport, and the receive-backlog cases (a Close that never returns has
+	// further Close callers queueing on sync.Once's mutex, which stops a bubble's clock, so the
+	// watchdog below needs real time)
+	real := c.Transport == "blocking" || c.Load == "recv-backlog"
 	settle := func() {
 		if real {
 			time.Sleep(30 * time.Millisecond)
@@ -68,6 +72,9 @@ func closeScenario(t *testing.T, c closeCase) closeResult {
 		recvErr := [2]string{}
 		for ep := 0; ep < 2; ep++ {
 			ep := ep
+			if c.Load == "recv-backlog" && ep == 1 {
+				continue // the server application is not reading: received packets pile up in its buffer
+			}
 			res.tw.Add(1)
 			go func() {
 				defer res.tw.Done()
@@ -89,6 +96,8 @@ func closeScenario(t *testing.T, c closeCase) closeResult {
 		switch c.Load {
 		case "burst", "lossy":
 			nSend = 12
+		case "recv-backlog":
+			nSend = int(c.N) + 3 // more than the receive buffer of the idle reader holds
 		case "full-window":
 			sim.pipes[1].Hold(true) // no ACK reaches the client: its window fills and Send blocks
 			nSend = int(c.N) + 2
@@ -132,7 +141,26 @@ func closeScenario(t *testing.T, c closeCase) closeResult {
 				}()
 			}
 		}
-		cw.Wait()
+		closeDone := make(chan struct{})
+		go func() { cw.Wait(); close(closeDone) }()
+		limit := 120 * time.Second
+		if real {
+			limit = 10 * time.Second
+		}
+		select {
+		case <-closeDone:
+		case <-time.After(limit):
+			// Close does not return: record it and leave the wedged connection behind
+			mu.Lock()
+			out.MaxCloseTook = limit
+			out.CloseHung = fmt.Sprintf("a Close call had not returned after %v", limit)
+			mu.Unlock()
+			if real {
+				res.Abandon = true
+				return
+			}
+			<-closeDone
+		}
 		settle()
 		// calls after Close
 		for _, ep := range closers {
@@ -142,6 +170,23 @@ func closeScenario(t *testing.T, c closeCase) closeResult {
 			if _, err := conns[ep].Recv(); err == nil {
 				out.LaterRecv = true
 			}
+		}
+		if c.Load == "recv-backlog" {
+			// the idle reader wakes up only now: it may drain what was buffered, then must see the failure
+			res.tw.Add(1)
+			go func() {
+				defer res.tw.Done()
+				for {
+					if _, err := conns[1].Recv(); err != nil {
+						mu.Lock()
+						recvErrAt[1] = sim.now()
+						recvErr[1] = err.Error()
+						mu.Unlock()
+						return
+					}
+				}
+			}()
+			settle()
 		}
 		// the closers' blocked calls must have failed by now
 		mu.Lock()
@@ -207,14 +252,24 @@ func TestC12(t *testing.T) {
 				if tr == "blocking" && (at > 400*time.Millisecond || (!thorough() && at != 40*time.Millisecond)) {
 					continue // wall-clock cases: each costs a real second
 				}
-				for _, load := range []string{"idle", "burst", "full-window", "lossy"} {
+				for _, load := range []string{"idle", "burst", "full-window", "lossy", "recv-backlog"} {
 					for _, ka := range []bool{false, true} {
 						n := uint8(3)
 						if load == "burst" && who == 1 {
 							n = 20
 						}
-						cases = append(cases, closeCase{At: at, Who: who, Times: 1 + len(cases)%3, Callers: 1 + len(cases)%4,
-							Transport: tr, Load: load, N: n, Keepalive: ka})
+						cc := closeCase{At: at, Who: who, Times: 1 + len(cases)%3, Callers: 1 + len(cases)%4,
+							Transport: tr, Load: load, N: n, Keepalive: ka}
+						if load == "recv-backlog" && (at > 400*time.Millisecond || (!thorough() && at != 40*time.Millisecond && at != 400*time.Millisecond)) {
+							continue // wall-clock cases
+						}
+						if load == "recv-backlog" {
+							// a single Close call per endpoint: further callers would queue on sync.Once's
+							// mutex, which is not a durable block, and the bubble's clock (hence the
+							// watchdog for a Close that never returns) could not advance
+							cc.Times, cc.Callers = 1, 1
+						}
+						cases = append(cases, cc)
 					}
 				}
 			}
@@ -243,6 +298,8 @@ func TestC12(t *testing.T) {
 						r.Violate("C12/panic", res.Panic, c)
 					case res.Leaked != "":
 						r.Violate("C12/leak", "goroutines of the connection are still blocked after both ends were closed: "+res.Leaked[:min(len(res.Leaked), 300)], c)
+					case res.CloseHung != "":
+						r.Violate("C12/close-does-not-return", res.CloseHung, c)
 					case res.MaxCloseTook > 1100*time.Millisecond && c.Transport != "blocking" || res.MaxCloseTook > 2500*time.Millisecond:
 						r.Violate("C12/close-slow", fmt.Sprintf("a Close call took %v (FIN send timeout is 1 s)", res.MaxCloseTook), c)
 					case res.LaterSend || res.LaterRecv:
